@@ -50,6 +50,7 @@
 (*     such variables (equal tables) and over 'a (all points); between lambda terms / partial applications     *)
 (*     over a number type a differing sample point refutes it, agreement on the sample points decides nothing. *)
 (*   * anything else (transcendental functions, functions of two arguments, ...) evaluates to "N".             *)
+(*   * goals whose estimated number of atom evaluations exceeds CostBudget are not examined (Outcomes = {"N"}). *)
 (* Refuted(goal | prems): some assignment of the free variables (nat 0..n, int -n..n, real on RealGrid,       *)
 (* bool, 'a in carriers of size 1 and 2, predicates / sets / functions over 'a: all of them) makes every      *)
 (* premise "T" and the goal "F".  Free variables are universally quantified, so such an assignment is a       *)
@@ -345,6 +346,30 @@ NoVA == ("!" :> FF)                      \* the empty assignment (a string-keyed
 UsesTyVar(goal, prems) == \E T \in TypesIn(goal) \cup UNION { TypesIn(prems[i]) : i \in 1..Len(prems) } :
                              T = "'a" \/ (T \in FunT /\ (SigOf(T)[2] = "'a" \/ SigOf(T)[3] = "'a"))
 \* the set of truth values of  prems |- goal  over all assignments (carriers of size 1 and 2 for 'a)
+\* ---- size guard: an estimate of the number of atom evaluations (saturating); goals beyond the budget are not examined
+CostCap == 1000000
+CostBudget == 150000
+SatMul(a, b) == IF a = 0 \/ b = 0 THEN 0 ELSE IF a > CostCap \div b THEN CostCap + 1 ELSE a * b
+SatAdd(a, b) == IF a + b > CostCap THEN CostCap + 1 ELSE a + b
+RECURSIVE CostF(_, _, _), EnvCount(_, _, _)
+\* t is a PREPARED formula; span = estimated spread of the integer values in scope
+CostF(t, span, n) ==
+  IF IsQ(t) /\ Len(t[5]) = 1
+  THEN LET T == t[3]
+           d == IF T \in IntT THEN (IF t[4] > 0 THEN span + 2 * t[4] ELSE 2 * n + 1)
+                ELSE IF T = "real" THEN Cardinality(RealGrid) ELSE 2
+           sp == IF T \in IntT /\ t[4] > 0 THEN span + 2 * t[4] ELSE span IN
+       SatMul(d, CostF(t[5][1], IF sp > 400 THEN 400 ELSE sp, n))
+  ELSE IF Len(t[5]) = 0 THEN 1
+  ELSE IF Len(t[5]) = 1 THEN SatAdd(1, CostF(t[5][1], span, n))
+  ELSE IF Len(t[5]) = 2 THEN SatAdd(CostF(t[5][1], span, n), CostF(t[5][2], span, n))
+  ELSE IF Len(t[5]) = 3 THEN SatAdd(CostF(t[5][1], span, n), SatAdd(CostF(t[5][2], span, n), CostF(t[5][3], span, n)))
+  ELSE 1
+EnvCount(vs, i, n) == IF i > Len(vs) THEN 1
+                      ELSE LET T == vs[i][2]
+                               d == IF T = "nat" THEN n + 1 ELSE IF T = "int" THEN 2 * n + 1
+                                    ELSE IF T = "real" THEN Cardinality(RealGrid) ELSE IF T \in {"bool", "'a"} THEN 2 ELSE 4 IN
+                           SatMul(d, EnvCount(vs, i + 1, n))
 Outcomes(goal0, prems0, n, w) ==
   LET goal == Prep(goal0)
       prems == IF Len(prems0) = 0 THEN <<>>
@@ -353,7 +378,11 @@ Outcomes(goal0, prems0, n, w) ==
                ELSE IF Len(prems0) = 3 THEN <<Prep(prems0[1]), Prep(prems0[2]), Prep(prems0[3])>>
                ELSE prems0
       vs == SetToSeqC(SeqFV(goal, prems))
-      ks == IF UsesTyVar(goal, prems) THEN {1, 2} ELSE {1} IN
-  UNION { OutRec(goal, prems, vs, 1, NoVA, [n |-> n, w |-> w, k |-> k, iv |-> {}]) : k \in ks }
+      ks == IF UsesTyVar(goal, prems) THEN {1, 2} ELSE {1}
+      fc == SatAdd(CostF(goal, 2 * n + 1, n), IF Len(prems) = 0 THEN 0 ELSE IF Len(prems) = 1 THEN CostF(prems[1], 2 * n + 1, n)
+                                               ELSE SatAdd(CostF(prems[1], 2 * n + 1, n), CostF(prems[2], 2 * n + 1, n)))
+      cost == SatMul(SatMul(EnvCount(vs, 1, n), Cardinality(ks)), SatMul(fc, w)) IN
+  IF cost > CostBudget * w THEN {"N"}
+  ELSE UNION { OutRec(goal, prems, vs, 1, NoVA, [n |-> n, w |-> w, k |-> k, iv |-> {}]) : k \in ks }
 Refuted(goal, prems, n) == "F" \in Outcomes(goal, prems, n, 1)
 =============================================================================
